@@ -283,23 +283,24 @@ func runParserProp(pp *pProp, tier string) int {
 	}
 	ev := &evidence{PropertyID: pp.id, Tier: tier, Seed: int64(seed), Level: pp.level, WallS: wall, Violations: len(rep.fresh),
 		Coverage: map[string]any{
-			"evaluations":             runs,
-			"distinct_nontrivial":     len(distinct),
-			"rule":                    pp.rule,
-			"samples":                 samples,
-			"cases":                   cases,
-			"grammars":                grammars,
-			"batches":                 nb,
-			"stats":                   stats,
-			"runs_per_hour":           perHour(runs, wall),
-			"simulated_time":          "no wall clock in the parser; logical time = expression ticks and instrumentation steps",
-			"fault_kinds":             fk,
-			"violations_before_dedup": nviol,
-			"unclaimed_divergence":    stats["unclaimed_divergence"] + stats["unclaimed_divergence_statistics_twin"] + stats["unclaimed_divergence_unoptimized_twin"],
-			"known_findings_seen":     rep.known,
-			"race_build":              pp.race,
-			"instrumentation":         map[string]any{"map_range_sites": len(pw.rewrite.Sites), "steps_inserted": pw.rewrite.Steps, "sync_imports_replaced": pw.rewrite.SyncImports, "debug_prints_redirected": pw.rewrite.FmtPrints},
-			"components":              map[string]any{"real": []string{"pigeon (front-end, builder, goimports) generating each parser", "the complete generated parser runtime"}, "stub": []string{"user code blocks (kernel)", "sync.Pool (simsync)", "map iteration order (ascending)", "goroutine choice (simrt scheduler) where clients run concurrently"}},
+			"evaluations":                     runs,
+			"distinct_nontrivial":             len(distinct),
+			"rule":                            pp.rule,
+			"samples":                         samples,
+			"cases":                           cases,
+			"grammars":                        grammars,
+			"batches":                         nb,
+			"stats":                           stats,
+			"runs_per_hour":                   perHour(runs, wall),
+			"simulated_time":                  "no wall clock in the parser; logical time = expression ticks and instrumentation steps",
+			"fault_kinds":                     fk,
+			"violations_before_dedup":         nviol,
+			"unclaimed_divergence":            stats["unclaimed_divergence"] + stats["unclaimed_divergence_statistics_twin"] + stats["unclaimed_divergence_unoptimized_twin"],
+			"known_findings_seen":             rep.known,
+			"race_build":                      pp.race,
+			"generated_parsers_not_compiling": notCompiling,
+			"instrumentation":                 map[string]any{"map_range_sites": len(pw.rewrite.Sites), "steps_inserted": pw.rewrite.Steps, "sync_imports_replaced": pw.rewrite.SyncImports, "debug_prints_redirected": pw.rewrite.FmtPrints},
+			"components":                      map[string]any{"real": []string{"pigeon (front-end, builder, goimports) generating each parser", "the complete generated parser runtime"}, "stub": []string{"user code blocks (kernel)", "sync.Pool (simsync)", "map iteration order (ascending)", "goroutine choice (simrt scheduler) where clients run concurrently"}},
 		},
 		Assumptions: pp.assume,
 	}
